@@ -2,3 +2,9 @@ import XPathV.Theorems.C01
 #print axioms XPathV.Theorems.C01.axis_table_ok
 #print axioms XPathV.Theorems.C01.shortcut_condition_ok
 #print axioms XPathV.Theorems.C01.shortcut_guard_from_source
+#print axioms XPathV.Theorems.C01.child_walk
+#print axioms XPathV.Theorems.C01.descendant_walk
+#print axioms XPathV.Theorems.C01.ancestor_walk
+#print axioms XPathV.Theorems.C01.sibling_walks
+#print axioms XPathV.Theorems.C01.following_walk
+#print axioms XPathV.Theorems.C01.preceding_walk
